@@ -427,7 +427,7 @@ impl Run {
                 // context: the first following line that names a source location
                 let mut ctx = String::new();
                 for l2 in lines.iter().skip(n + 1).take(40) {
-                    if l2.contains("/repo/src") || l2.contains("harness/src") || l2.contains("cdriver") {
+                    if l2.contains("/repo/src") || l2.contains("ldpc_toolbox::") || l2.contains("ldpc_toolbox_") || l2.contains("harness/src") || l2.contains("roundtrip.c") {
                         ctx = l2.trim().to_string();
                         break;
                     }
@@ -468,7 +468,7 @@ impl Run {
             // strip addresses / numbers that vary
             let stable: String = e
                 .split_whitespace()
-                .filter(|w| !w.starts_with("0x") && !w.starts_with("=="))
+                .filter(|w| !w.starts_with("0x") && !w.starts_with("==") && !w.contains("BuildId") && !w.ends_with(')') && !w.starts_with("(/") && !w.starts_with('#'))
                 .collect::<Vec<_>>()
                 .join(" ");
             self.merged.viol.push(Violation {
